@@ -255,6 +255,83 @@ theorem gpf_inplace_unguarded_not_restored :
       = Sym.pred := by
   decide
 
+/-! ### Histories, decorators, hand-over -/
+
+/-- **History lift**: if a correction leaves the belief untouched whenever one of its consulted
+    calls fails, then in every sequence of calls on one object — whatever happened in the earlier
+    calls, whatever they consumed of the script — each call with a failing consulted call returns
+    that call's predicted belief. -/
+theorem fault_identity_history (f : Script → β → β → R β)
+    (hf : ∀ s p c, anyFailed (f s p c).log = true → (f s p c).val = p) :
+    ∀ (calls : List (β × β)) (s : Script), ∀ x ∈ runCalls f s calls,
+      anyFailed x.2.log = true → x.2.val = x.1 := by
+  intro calls
+  induction calls with
+  | nil => intro s x hx; simp [runCalls] at hx
+  | cons c rest ih =>
+    intro s x hx
+    obtain ⟨p, cin⟩ := c
+    simp only [runCalls, List.mem_cons] at hx
+    rcases hx with rfl | hx
+    · exact hf s p cin
+    · exact ih _ x hx
+
+/-- The lift applies to the Kalman, unscented (all three variants) and serial unscented
+    corrections. -/
+theorem fault_identity_history_gauss (num : β → β → β) (calls : List (β × β)) (s : Script) :
+    (∀ x ∈ runCalls (kfCorrect num) s calls, anyFailed x.2.log = true → x.2.val = x.1) ∧
+    (∀ v, ∀ x ∈ runCalls (ukfCorrect v num) s calls, anyFailed x.2.log = true → x.2.val = x.1) ∧
+    (∀ k, ∀ x ∈ runCalls (sukfCorrect true k num) s calls, anyFailed x.2.log = true → x.2.val = x.1) :=
+  ⟨fault_identity_history _ (fun s p c h => ((fault_identity_kf num s p c).1 h).1) calls s,
+   fun v => fault_identity_history _ (fun s p c h => ((fault_identity_ukf v num s p c).1 h).1) calls s,
+   fun k => fault_identity_history _ (fun s p c h => ((fault_identity_sukf true k num s p c).1 (Or.inl h)).1) calls s⟩
+
+/-- `update_weights_online` makes no difference to validity propagation: the two generic
+    variants of the unscented correction are the same function of the script. -/
+theorem ukf_online_same_as_generic (num : β → β → β) (s : Script) (pred cin : β) :
+    ukfCorrect .genericOnline num s pred cin = ukfCorrect .generic num s pred cin := rfl
+
+/-- A forwarding decorator is transparent: the decorated model answers every call exactly as
+    the wrapped one, so every correction — a function of those answers — is unchanged. -/
+theorem decorate_transparent {σ : Type} (m : MModel σ) : decorate m = m := by
+  cases m with
+  | mk a =>
+    simp only [decorate, MModel.mk.injEq]
+    funext s meth
+    cases meth <;> rfl
+
+/-- The hypothesis `LikSpec` of `fault_identity_bootstrap` is necessary: a user likelihood that
+    consults a failing call but still reports a value makes the bootstrap correction update. -/
+theorem fault_identity_bootstrap_needs_likspec :
+    let bad : Script → R (Option Unit) := fun s => ⟨some (), s, [⟨.boot, .likelihood, false, true⟩]⟩
+    ¬ LikSpec bad ∧
+    anyFailed (bootCorrect bad (fun p _ => Sym.updated p) {} Sym.pred).log = true ∧
+    (bootCorrect bad (fun p _ => Sym.updated p) {} Sym.pred).val ≠ Sym.pred := by
+  refine ⟨fun h => ?_, by decide, by decide⟩
+  have := (h {}).2 (by decide)
+  simp at this
+
+/-- **Hand-over** (code as repaired by 186c63d / 2d4bf06): a move-assigned or move-constructed
+    bootstrap / Gaussian particle correction *is* the configured original — it asks the source's
+    models in the source's state and carries its skip flag — so it corrects exactly as the
+    original would have, for every script and belief. -/
+theorem handover_transparent (target source : PFCorrObj β γ) :
+    PFCorrObj.moveAssign target source = source ∧ PFCorrObj.moveConstruct source = source ∧
+    (∀ upd pred, (PFCorrObj.moveAssign target source).bootCorrect upd pred = source.bootCorrect upd pred) ∧
+    (∀ sample weigh pred cin,
+      (PFCorrObj.moveAssign target source).gpfCorrect sample weigh pred cin = source.gpfCorrect sample weigh pred cin) := by
+  cases source
+  exact ⟨rfl, rfl, fun _ _ => rfl, fun _ _ _ _ => rfl⟩
+
+/-- Hence fault identity survives the hand-over (bootstrap; likelihood satisfying `LikSpec`). -/
+theorem fault_identity_bootstrap_handover (target source : PFCorrObj β γ) (hl : LikSpec source.lik)
+    (hs : source.skip = false) (upd : β → γ → β) (pred : β)
+    (h : anyFailed ((PFCorrObj.moveAssign target source).bootCorrect upd pred).log = true) :
+    ((PFCorrObj.moveAssign target source).bootCorrect upd pred).val = pred := by
+  rw [(handover_transparent target source).2.2.1] at h ⊢
+  simp only [PFCorrObj.bootCorrect, hs] at h ⊢
+  exact (fault_identity_bootstrap source.lik hl upd source.models pred).1 h
+
 /-! ### SIS: measurement acquisition fails ⇒ the correction is not attempted -/
 
 theorem sis_freeze_failure_no_correct (correct : Script → β → β → R β) (normalise : β → β)
